@@ -16,7 +16,21 @@ def sig_c03(rec):
     return "maxage:" + "|".join(hs)[:200]
 
 
+def sig_c14(rec):
+    case = rec.get("case") or {}
+    return "route:" + str(case.get("locations"))[:200]
+
+
 PROPS = {
+    "C14": {
+        "families": {"route": {"quick": 600, "thorough": 12000, "search": 4000}},
+        "signature": sig_c14,
+        "trusted_base": [
+            "model coq/Model/Location.v is hand-written from location/location.go (Match, getPriority, Set, Get); sort.Slice is modelled as *any* priority-ordered permutation in the theorems and as a stable insertion sort in the executable comparison (projected on found?/class)",
+        ],
+        "assumptions": ["the 503 answer and the absence of an upstream contact when no location matches are checked end to end under C15's proxy family"],
+        "explanation": "get_best/get_none hold for every sorted permutation; per-run obligation: the weights regenerated from getPriority satisfy 0 < host < prefix.",
+    },
     "C03": {
         "families": {"maxage": {"quick": 3000, "thorough": 60000, "search": 20000}},
         "signature": sig_c03,
